@@ -224,6 +224,10 @@ impl VarResolve for AssignToFunction {
             let expr = Expression::Variable(converted_name, expr_type);
 
             Ok(expr)
+        } else if extra.element == ExprContext::Argument {
+            // passing the result of a function without parameters as an argument, e.g. `Show Greeting$`
+            let converted_name = try_qualify(name, function_qualifier).with_err_at(&extra.pos)?;
+            Ok(Expression::FunctionCall(converted_name, vec![]))
         } else {
             Err(LintError::DuplicateDefinition.at_pos(extra.pos))
         }
